@@ -441,6 +441,15 @@ func (v *VC) doCall(c *ssa.CallCommon, g string, heap *Heap, pos token.Pos) []st
 				return v.modularSig(fk, sig, ct, append([]string{v.val(c.Value)}, args...), c.Value.Type(), g, heap, pos)
 			}
 		}
+		if tk := funcTypeKey(c.Value); tk != "" {
+			if ct, ok := v.P.db.Contracts[tk]; ok {
+				ct.Used = true
+				v.calls[tk] = true
+				v.note("assumed contract of every function value of type %s", strings.TrimPrefix(tk, "functype:"))
+				v.safety("nil-func-call", g, fmt.Sprintf("(not (= %s nilp))", v.val(c.Value)), pos)
+				return v.modularSig(tk, sig, ct, append([]string{v.val(c.Value)}, args...), c.Value.Type(), g, heap, pos)
+			}
+		}
 		if prm, ok := c.Value.(*ssa.Parameter); ok && v.contract != nil && v.contract.Callbacks[prm.Name()] && !v.inline {
 			v.note("callback parameter %s of %s is assumed not to modify memory this function observes", prm.Name(), shortKey(fnKey(v.fn)))
 			v.safety("nil-func-call", g, fmt.Sprintf("(not (= %s nilp))", v.val(c.Value)), pos)
@@ -853,4 +862,16 @@ func fieldFuncVarKey(x ssa.Value) string {
 		return ""
 	}
 	return "field:" + nt.Obj().Pkg().Path() + "." + nt.Obj().Name() + "." + st.Field(fa.Field).Name()
+}
+
+// funcTypeKey: "functype:<pkgpath>.<Name>" when x is a value of a named func type.
+func funcTypeKey(x ssa.Value) string {
+	nt, ok := x.Type().(*types.Named)
+	if !ok || nt.Obj().Pkg() == nil {
+		return ""
+	}
+	if _, isSig := nt.Underlying().(*types.Signature); !isSig {
+		return ""
+	}
+	return "functype:" + nt.Obj().Pkg().Path() + "." + nt.Obj().Name()
 }
